@@ -22,7 +22,8 @@
    ... while handling every other byte string without             base64_in_bounds (input, 123-entry table, output buffer,
      out-of-bounds access                                           no read of an unwritten cell), base64_as_found_refuted
                                                                     (the code before fix 01 leaves the table at byte 0x80)
-   Bytes are lists of Z with wf_bytes (0 <= b < 256); from_string and from_base64 need not even that. *)
+   Bytes are lists of Z with wf_bytes (0 <= b < 256); from_string, is_valid and from_base64 need not even that
+   (the code looks at its input through (char)/(unsigned char) casts only). *)
 From Coq Require Import ZArith List.
 From Common Require Import Words ListAux.
 From Codec Require Import Gen_Codec CodecSpec CodecModel CodecProofs CodecProofsInt.
@@ -82,11 +83,12 @@ Theorem utf8_from_string_never_fails : forall bs e, from_string bs <> Err e.
 Proof. exact from_string_never_fails. Qed.
 Print Assumptions utf8_from_string_never_fails.
 
-Theorem utf8_is_valid_never_fails : forall bs, wf_bytes bs = true -> forall e, is_valid bs <> Err e.
-Proof. exact is_valid_never_fails. Qed.
+Theorem utf8_is_valid_never_fails : forall bs,
+  is_valid bs = Ok (layout_valid (map w8 bs)) /\ (forall e, is_valid bs <> Err e).
+Proof. exact (fun bs => conj (is_valid_any bs) (is_valid_never_fails_any bs)). Qed.
 Print Assumptions utf8_is_valid_never_fails.
-Example utf8_never_fails_nv : wf_bytes [255; 240; 128; 224] = true /\ is_valid [255; 240; 128; 224] = Ok false
-  /\ from_string [224; 128] = Ok 0 /\ is_valid [195] = Ok false.
+Example utf8_never_fails_nv : is_valid [255; 240; 128; 224] = Ok false
+  /\ from_string [224; 128] = Ok 0 /\ is_valid [195] = Ok false /\ is_valid [240; 144; 128] = Ok false.
 Proof. vm_compute. repeat split. Qed.
 
 Theorem utf8_from_string_truncated : forall b0 t, 128 <= b0 < 256 ->
